@@ -902,8 +902,16 @@ def oracle_chain(case, obs):
     if auto:
         if not h or h[0][0] != "aenable" or any(op[0] not in ("aiter", "setdur") for op in h[1:]) or case["default"] is not None:
             return []
-    elif not h or any(op[0] not in ("engage", "execute", "setdur") for op in h):
-        return []
+    start = 0
+    if not auto:
+        # a prelude that ends with done() -- an earlier run, possibly begun with engage(initial_state=..) -- leaves a stopped
+        # machine: the chain clause speaks about what follows the last done()
+        dones = [i for i, op in enumerate(h) if op[0] == "done"]
+        start = dones[-1] + 1 if dones else 0
+        if (not h[start:] or any(op[0] not in ("engage", "execute", "setdur") for op in h[start:])
+                or any(op[0] not in ("engage", "execute", "setdur", "done") for op in h[:start])
+                or any(e[0] == "err" for o_ in obs[:start] for e in o_[0])):
+            return []
     st = case["states"]
     dur = {int(k): v["dur"] for k, v in st.items()}
     dur.update({int(k): v for k, v in (case.get("predur") or {}).items()})
@@ -918,6 +926,8 @@ def oracle_chain(case, obs):
     for opi, (op, (evs, is_exec, c)) in enumerate(zip(h, obs)):
         if op[0] == "setdur":
             dur[op[1]] = op[2]
+            continue
+        if opi < start:
             continue
         if op[0] == "aenable":
             continue
@@ -1094,6 +1104,18 @@ def gen_chain(r, auto=False):
     timed_ids = [i for i in range(n) if states[i]["timed"]]
     if auto:
         hist.append(["aenable"])
+    elif n >= 2 and r.random() < 0.3:
+        # an earlier run begun somewhere else (engage(initial_state=X)) and ended by done(): the chain that follows starts at
+        # the first state all the same, also when it starts over after its last state
+        x = r.choice(order[1:])
+        hist.append(["engage", x, r.random() < 0.3])
+        for _ in range(r.randrange(1, 4)):
+            t += r.choice(stepset)
+            hist.append(["execute", t])
+            hist.append(["engage", None, False])
+        t += r.choice(stepset)
+        hist.append(["execute", t])
+        hist.append(["done"])
     for _ in range(r.randrange(10, 45)):
         if r.random() < 0.05 and timed_ids:
             hist.append(["setdur", r.choice(timed_ids), r.choice([0, 1, 2, 4, 8, 16])])
